@@ -73,6 +73,7 @@ def history_frames(ctx, cov):
 def run(ctx):
     binary = wc.build_driver(ctx)
     cov = ctx.coverage
+    cov["refdecoder_selftest_cases"] = wc.selftest(ctx, binary)
     k = 3 if ctx.quick else 40
     vecs, r = wc.tlc_part(ctx, "send", {"NICs": NICS, "Parts": '{"send"}'}, timeout=1200)
     cov["tlc"] = {"send": dict(r.summary(), exported=len(vecs))}
